@@ -698,6 +698,22 @@ m('pooldouble-q','C10',['POOL-DOUBLE'],'constraint/bw6-633/solver.go','''	q := p
 	q.Set(s.q)
 
 	for i := 0; i < nbInputs; i++ {''',note='a deferred release of the modulus copy added, the explicit release at the end kept')
+edit('backend/groth16/bls12-381/marshal.go',[('''	"fmt"
+	"io"
+''','''	"bufio"
+	"fmt"
+	"io"
+'''),('''func (proof *Proof) ReadFrom(r io.Reader) (n int64, err error) {
+
+	dec := curve.NewDecoder(r)
+''','''func (proof *Proof) ReadFrom(r io.Reader) (n int64, err error) {
+
+	dec := curve.NewDecoder(bufio.NewReader(r))
+''')])
+d = subprocess.run(['git','-C',WT,'diff'],capture_output=True,text=True).stdout
+subprocess.check_call(['git','-C',WT,'checkout','--','.'])
+open(os.path.join(root,'selftest','patches','codecexact-proof.diff'),'w').write(d)
+M.append({'id':'codecexact-proof','property':'C09','expect_rules':['CODEC-EXACT'],'file':'backend/groth16/bls12-381/marshal.go','note':'the Groth16 proof decoder reads through a bufio.Reader: bytes after the proof are swallowed'})
 json.dump({'comment':'selftest mutants: each patch breaks one rule instance and must be detected by the listed rule(s) of its property; produced by tools/make_selftest.py','mutants':M}, open(os.path.join(root,'selftest','mutants.json'),'w'), indent=1)
 subprocess.run(['git','-C','/repo','worktree','remove','--force',WT],capture_output=True)
 print(len(M),'mutants')
